@@ -43,3 +43,89 @@ pub mod pure {
         metadata.generation()
     }
 }
+
+/// H1/H2: device observer and fault decisions. Every write and fsync the engine issues on the
+/// device file reports here first; the installed observer logs it and may ask for a failure
+/// before or after the bytes reach the file.
+pub mod dev {
+    use std::cell::Cell;
+    use std::sync::atomic::{AtomicBool, Ordering};
+    use std::sync::{Arc, RwLock};
+
+    #[derive(Clone, Copy, PartialEq, Eq, Debug)]
+    pub enum Decision {
+        Proceed,
+        FailBefore,
+        FailAfter,
+    }
+
+    pub trait Observer: Send + Sync {
+        /// a write of `data` at byte `offset` is about to be issued (`ring`: through io_uring)
+        fn write(&self, fd: i32, offset: u64, data: &[u8], ring: bool) -> Decision;
+        /// an fsync is about to be issued
+        fn fsync(&self, fd: i32) -> Decision;
+        /// the fsync returned (ok = it succeeded and was not failed by a decision)
+        fn fsync_done(&self, fd: i32, ok: bool);
+    }
+
+    static OBSERVER: RwLock<Option<Arc<dyn Observer>>> = RwLock::new(None);
+    static FORCE_SYNC_PATH: AtomicBool = AtomicBool::new(false);
+
+    thread_local! {
+        static FAIL_AFTER: Cell<bool> = const { Cell::new(false) };
+    }
+
+    pub fn install(observer: Option<Arc<dyn Observer>>) {
+        *OBSERVER.write().unwrap() = observer;
+    }
+
+    /// When set, `DiskIO::new` does not use io_uring (every write is a pwrite).
+    pub fn set_force_sync_path(on: bool) {
+        FORCE_SYNC_PATH.store(on, Ordering::SeqCst);
+    }
+
+    pub fn force_sync_path() -> bool {
+        FORCE_SYNC_PATH.load(Ordering::SeqCst)
+    }
+
+    fn observer() -> Option<Arc<dyn Observer>> {
+        OBSERVER.read().unwrap().clone()
+    }
+
+    /// Returns true when the call must fail before touching the file.
+    pub(crate) fn before_write(fd: i32, offset: u64, data: &[u8], ring: bool) -> bool {
+        let Some(observer) = observer() else {
+            return false;
+        };
+        match observer.write(fd, offset, data, ring) {
+            Decision::Proceed => false,
+            Decision::FailBefore => true,
+            Decision::FailAfter => {
+                FAIL_AFTER.with(|flag| flag.set(true));
+                false
+            }
+        }
+    }
+
+    /// Returns true when a completed write must be reported as failed.
+    pub(crate) fn after_write() -> bool {
+        FAIL_AFTER.with(|flag| flag.replace(false))
+    }
+
+    pub(crate) fn before_fsync(fd: i32) -> Decision {
+        match observer() {
+            Some(observer) => observer.fsync(fd),
+            None => Decision::Proceed,
+        }
+    }
+
+    pub(crate) fn after_fsync(fd: i32, ok: bool) {
+        if let Some(observer) = observer() {
+            observer.fsync_done(fd, ok);
+        }
+    }
+
+    pub(crate) fn injected() -> std::io::Error {
+        std::io::Error::other("verif: injected device failure")
+    }
+}
